@@ -53,6 +53,7 @@ TIERS = {
         "mc": ["MC_WalrusBlocks_thorough.cfg", "MC_WalrusBlocks_wide.cfg", "MC_WalrusBlocks_two.cfg"],
         "gen": "MC_WalrusBlocks_quick.cfg",
         "gen_extra": ["MC_WalrusBlocks_wide.cfg", "MC_WalrusBlocks_two.cfg"],
+        "gen_keep": {"MC_WalrusBlocks_two.cfg": 120000},
         "defects": ["MC_WalrusBlocks_defect_parser.cfg", "MC_WalrusBlocks_defect_budget0.cfg",
                     "MC_WalrusBlocks_defect_tailinit.cfg"],
         "known": [],
@@ -156,12 +157,18 @@ def run_mc(cfg, expect="ok", simulate=None, timeout=1500, use_cache=True):
         return res
 
 
-def load_histories(res):
+def load_histories(res, max_keep=None):
+    """Histories printed by a run; with max_keep a seeded random subset (only for runs that print leaves
+    only, where no history is needed as the prefix of another)."""
     out = []
+    n = res.get("histories") or 0
+    r = random.Random("wb-load/%d" % C.seed())
+    p = 1.0 if not max_keep or n <= max_keep else float(max_keep) / n
     if res.get("hist_file"):
         with gzip.open(res["hist_file"], "rt") as f:
             for line in f:
-                out.append(json.loads(line))
+                if p >= 1.0 or r.random() < p:
+                    out.append(json.loads(line))
     return out
 
 
@@ -240,34 +247,32 @@ class Histories:
 
 
 def select(hist, cap, seed):
-    """Maximal histories, at most `cap`: first one per distinct sequence of code-path labels, then one per
-    distinct final label x final projection shape, then seeded random fill."""
+    """Maximal histories, at most `cap`. Stratified: the histories are grouped by (mode, code path of the
+    last operation, code path of the operation before it) and the groups are served round-robin (seeded
+    shuffle inside a group), so that rare code paths get the same share as common ones."""
     mx = hist.maximal()
     if len(mx) <= cap:
         return mx, len(mx)
     r = random.Random("wb-select/%d" % seed)
-    r.shuffle(mx)
-    chosen, seen_lp, rest = [], set(), []
+    groups = {}
     for s in mx:
-        lp = (s["mode"], s["pe"]) + hist.label_path(s)
-        if lp not in seen_lp:
-            seen_lp.add(lp)
-            chosen.append(s)
-        else:
-            rest.append(s)
-    if len(chosen) > cap:
-        # too many distinct label paths: keep one per (mode, last two labels) first
-        first, seen2, other = [], set(), []
-        for s in chosen:
-            k2 = (s["mode"], s["pe"]) + hist.label_path(s)[-2:]
-            if k2 not in seen2:
-                seen2.add(k2)
-                first.append(s)
-            else:
-                other.append(s)
-        chosen = (first + other)[:cap]
-    else:
-        chosen += rest[:cap - len(chosen)]
+        lp = hist.label_path(s)
+        groups.setdefault((s["mode"], s["pe"]) + tuple(lp[-2:]), []).append(s)
+    keys = sorted(groups)
+    for k in keys:
+        r.shuffle(groups[k])
+    chosen, i = [], 0
+    while len(chosen) < cap:
+        progressed = False
+        for k in keys:
+            if i < len(groups[k]):
+                chosen.append(groups[k][i])
+                progressed = True
+                if len(chosen) >= cap:
+                    break
+        if not progressed:
+            break
+        i += 1
     return chosen, len(mx)
 
 
@@ -415,7 +420,7 @@ def blocks_pipeline(tier, use_cache=True, engine_bin_env=None, max_behaviours=No
     for cfg in td.get("gen_extra", []):
         r = run_mc(cfg, timeout=td["timeout"], use_cache=use_cache)
         mcs[cfg] = r
-        hist.add(load_histories(r))
+        hist.add(load_histories(r, td.get("gen_keep", {}).get(cfg)))
     sim_info = None
     if td["simulate"]:
         scfg, num, depth = td["simulate"]
